@@ -2,7 +2,7 @@
 import itertools, json, collections
 from . import common as C
 from . import docopt as D
-from .docopt_classes import classes_of, k12_dangling_value, k20_dash_positional
+from .docopt_classes import classes_of, k12_dangling_value, k20_dash_positional, k45_bare_dash, k46_dash_value
 from .common import hx, sx, parse_sx, unhx
 
 TB = [
@@ -121,12 +121,20 @@ def classify(recs):
                     r["known"].append("K20-dash-word-as-positional")
                 if k12_dangling_value(r["argv"]):
                     r["known"].append("K12-dangling-valued-option")
+                if k45_bare_dash(r["argv"]):
+                    r["known"].append("K45-bare-dash-word")
+                if k46_dash_value(r["argv"]):
+                    r["known"].append("K46-option-value-starting-with-dash")
                 r["known"] += ["K13-" + c for c in r["classes"]]
         else:
             if racc:
                 r["verdict"] = "C08"
                 if k12_dangling_value(r["argv"]):
                     r["known"].append("K12-dangling-valued-option")
+                if k45_bare_dash(r["argv"]):
+                    r["known"].append("K45-bare-dash-word")
+                if k46_dash_value(r["argv"]):
+                    r["known"].append("K46-option-value-starting-with-dash")
                 r["known"] += ["K13-" + c for c in r["classes"]]
             else:
                 r["verdict"] = "ok"
